@@ -8,21 +8,21 @@ def run(tier, seed):
     c = vlib.GoCheck("C10", "model_checking", tier, seed)
     nops = 4 if tier == "quick" else 5
     c.assumptions = [
-        "module: internal/waroot/malloc/malloc.wat expanded by the Go template and assembled by the tree's wat2wasm exactly as malloc.NewHeap does; configurations: 1 page growing to 2, stack pointer 1024, heap base 4096, fixed-list capacity 0 (disabled), 2 and 100",
-        "history: _start, then up to %d operations from the initial heap, each a wa_malloc whose size is 0 or lies in one of nine 8-byte classes between 1 and 200 (class enumerated, position inside the class symbolic) or a wa_free of any live block; after every operation the harness reads the heap and checks the clauses of the property" % nops,
+        "module: internal/waroot/malloc/malloc.wat expanded by the Go template and assembled by the tree's wat2wasm exactly as malloc.NewHeap does; configurations: 1 page growing to 2, stack pointer 1024, heap base 4096, fixed-list capacity 0 (disabled), 1, 2 and 100",
+        "history: _start, then up to %d operations from the initial heap, each a wa_malloc whose size is 0 or lies in one of eleven 8-byte classes between 1 and 200 or in one of two huge classes (60001.., 70001..: the second huge request does not fit into two pages and must fail without damaging the heap) (class enumerated, position inside the class symbolic) or a wa_free of any live block; after every operation the harness reads the heap and checks the clauses of the property" % nops,
         "bounded history, not an inductive step: heaps that need more than %d operations to build (long free lists, list capacity overflow beyond 2, coalescing of three neighbours) are outside; the copy in waroot/src/runtime/heap_malloc.wat.ws is covered through a compiled Wa program (module rtheap: runtime.malloc/runtime.free exported by text injection, capacity 64, after one warm-up allocation)" % nops,
     ]
     wdir = os.path.join(c.scratch, "wasm")
     os.makedirs(wdir)
     ov = vlib.make_overlay(c.scratch, [{"dir": WH, "name": "wh"}, {"dir": WB, "name": "main", "rt": False}])
-    mods = {"malloc_cap0": 0, "malloc_cap2": 2, "malloc_cap100": 100}
+    mods = {"malloc_cap0": 0, "malloc_cap1": 1, "malloc_cap2": 2, "malloc_cap100": 100}
     open(os.path.join(wdir, "rtheap.wa"), "w").write("func main {\n}\n")
     vlib.build_wasm(c.scratch, ov, [["malloc", os.path.join(wdir, n + ".wasm"), "1", "2", "1024", "4096", str(cap)] for n, cap in mods.items()]
                     + [["wa-rt", os.path.join(wdir, "rtheap.wa"), os.path.join(wdir, "rtheap.wasm")]])
     mods["rtheap"] = None
     vlib.REPLAY_ENV["VF_WASM_DIR"] = wdir
     opts = {"wasm": ",".join("%s=%s" % (n, os.path.join(wdir, n + ".wasm")) for n in mods), "samples": 1, "maxdecisions": 4000,
-            "caselimit": "VfH_heap=%d" % ((nops - 1) * 4 * 10), "maxpaths": 2000000}
+            "caselimit": "VfH_heap=%d" % ((nops - 1) * 5 * 14), "maxpaths": 2000000}
     c.bounds["operations_max"] = nops
-    c.run_unit(WH, "wh", harnesses=["VfH_heap"], expect_unreached=("heap/malloc-fails-only-when-memory-is-exhausted",), extra_pkgs=[{"dir": WB, "name": "main", "rt": False}], opts=opts)
+    c.run_unit(WH, "wh", harnesses=["VfH_heap"], extra_pkgs=[{"dir": WB, "name": "main", "rt": False}], opts=opts)
     return c.finish()
